@@ -964,16 +964,22 @@ fn exec<E: Elem>(op: &str, vals: &mut Vec<Val<E>>, forms: &[String], arg: i64, m
                 use generic_array::internals::ArrayConsumer;
                 let mut c = ArrayConsumer::new(a);
                 let mut acc = 0i64;
-                unsafe {
-                    let (it, pos) = c.iter_position();
-                    for (k, src) in it.enumerate() {
-                        if k == p { break; }
-                        let v = std::ptr::read(src);
-                        *pos += 1;
-                        ev!("\"ev\":\"cb\",\"k\":{},\"idx\":-1,\"args\":[{}],\"acc\":{},\"pv\":-1", k, v.id(), acc);
-                        acc += 1;
-                        ev!("\"ev\":\"cb_ret\",\"k\":{},\"ret\":[],\"acc\":{},\"panic\":false", k, acc);
-                        { let _b = crate::events::Bypass::new(); o.vals.push(v); }
+                // in two passes over the SAME consumer: iter_position hands out an iterator over the whole array each time
+                // (its documented meaning); the second pass skips what `position` says is gone
+                for (lo, hi) in [(0usize, p / 2), (p / 2, p)] {
+                    unsafe {
+                        let (it, pos) = c.iter_position();
+                        let start = *pos;
+                        assert!(start == lo, "HARNESS: consumer position {} != {}", start, lo);
+                        for (k, src) in it.enumerate().skip(start) {
+                            if k == hi { break; }
+                            let v = std::ptr::read(src);
+                            *pos += 1;
+                            ev!("\"ev\":\"cb\",\"k\":{},\"idx\":-1,\"args\":[{}],\"acc\":{},\"pv\":-1", k, v.id(), acc);
+                            acc += 1;
+                            ev!("\"ev\":\"cb_ret\",\"k\":{},\"ret\":[],\"acc\":{},\"panic\":false", k, acc);
+                            { let _b = crate::events::Bypass::new(); o.vals.push(v); }
+                        }
                     }
                 }
                 o.res = acc;
